@@ -17,6 +17,7 @@ package main
 
 import (
 	"context"
+	"errors"
 	"fmt"
 	"io"
 	"os"
@@ -30,8 +31,34 @@ import (
 
 type scripted struct {
 	chunks   [][]byte
+	errs     []int // per chunk: error returned together with its last byte (0 nil, 1 io.EOF, 2 another error); nil = all 0
 	offered  int
 	returned int
+	lastErr  int
+}
+
+var errOther = errors.New("c15: scripted read error")
+
+func errOf(code int) error {
+	switch code {
+	case 1:
+		return io.EOF
+	case 2:
+		return errOther
+	}
+	return nil
+}
+
+func codeOf(err error) int {
+	switch err {
+	case nil:
+		return 0
+	case io.EOF:
+		return 1
+	case errOther:
+		return 2
+	}
+	return 3
 }
 
 func (s *scripted) Read(p []byte) (int, error) {
@@ -41,13 +68,19 @@ func (s *scripted) Read(p []byte) (int, error) {
 		return 0, io.EOF
 	}
 	n := copy(p, s.chunks[0])
+	code := 0
 	if n < len(s.chunks[0]) {
 		s.chunks[0] = s.chunks[0][n:]
 	} else {
 		s.chunks = s.chunks[1:]
+		if len(s.errs) > 0 {
+			code = s.errs[0]
+			s.errs = s.errs[1:]
+		}
 	}
 	s.returned = n
-	return n, nil
+	s.lastErr = code
+	return n, errOf(code)
 }
 
 type obs struct {
@@ -60,7 +93,9 @@ type obs struct {
 type lrCase struct {
 	Size   int      `json:"size"`
 	Script []string `json:"script"`
+	Errs   []int    `json:"errs,omitempty"` // error returned with the last byte of each chunk
 	Obs    []obs    `json:"obs"`
+	RetErr []int    `json:"ret_err,omitempty"` // error ReadAndSend handed back, per call
 	Fin    []string `json:"fin"`
 }
 
@@ -79,6 +114,12 @@ func drain(ch chan *logline.LogLine) []string {
 // execute runs the real LineReader over the script.  problems are deviations
 // from the call protocol the harness relies on (not property violations).
 func execute(size int, script []string) (c lrCase, delivered []string, problems []string) {
+	return executeE(size, script, nil)
+}
+
+// executeE: errs[i] is the error the reader returns together with the last
+// byte of chunk i (nil = never an error before the end of the script).
+func executeE(size int, script []string, errs []int) (c lrCase, delivered []string, problems []string) {
 	defer func() {
 		// a slice expression out of range inside the reader must not take the
 		// whole run down: it is a failing input like any other
@@ -91,18 +132,21 @@ func execute(size int, script []string) (c lrCase, delivered []string, problems 
 		total += len(s)
 	}
 	ch := make(chan *logline.LogLine, total+2)
-	src := &scripted{}
+	src := &scripted{errs: append([]int(nil), errs...)}
 	for _, s := range script {
 		src.chunks = append(src.chunks, []byte(s))
 	}
 	ctx := context.Background()
 	lr := logstream.NewLineReader("c15", ch, src, size, func() {})
-	c = lrCase{Size: size, Script: vlib.Qs(script)}
+	c = lrCase{Size: size, Script: vlib.Qs(script), Errs: errs}
 	guard := 0
 	for len(src.chunks) > 0 {
 		n, err := lr.ReadAndSend(ctx)
-		if err != nil {
-			problems = append(problems, fmt.Sprintf("ReadAndSend returned error %v before the script ended", err))
+		if codeOf(err) != src.lastErr {
+			problems = append(problems, fmt.Sprintf("ReadAndSend returned error %v, the reader returned %v", err, errOf(src.lastErr)))
+		}
+		if errs != nil {
+			c.RetErr = append(c.RetErr, codeOf(err))
 		}
 		if n != src.returned {
 			problems = append(problems, fmt.Sprintf("ReadAndSend returned count %d, the reader returned %d", n, src.returned))
@@ -185,6 +229,17 @@ func coqObs(os []obs) string {
 }
 
 func coqCase(id uint64, c lrCase) string {
+	if c.Errs != nil {
+		sc := make([]string, len(c.Script))
+		for i, x := range vlib.UnQs(c.Script) {
+			sc[i] = "(" + tlib.H(x) + ", " + vlib.N(uint64(c.Errs[i])) + ")"
+		}
+		os := make([]string, len(c.Obs))
+		for i, o := range c.Obs {
+			os[i] = "(" + vlib.App("O", vlib.Nat(o.Space), vlib.Nat(o.Count), tlib.LS(vlib.UnQs(o.Lines)), tlib.H(vlib.UnQ(o.Pending))) + ", " + vlib.N(uint64(c.RetErr[i])) + ")"
+		}
+		return vlib.App("CLRE", vlib.N(id), vlib.Nat(c.Size), vlib.List(sc), vlib.List(os), tlib.LS(vlib.UnQs(c.Fin)))
+	}
 	return vlib.App("CLR", vlib.N(id), vlib.Nat(c.Size), tlib.LS(vlib.UnQs(c.Script)), coqObs(c.Obs), tlib.LS(vlib.UnQs(c.Fin)))
 }
 
@@ -222,14 +277,20 @@ func main() {
 			out.Violate(class, what, c)
 		}
 	}
-	run := func(size int, script []string, toCoq bool, tag string) {
-		c, got, probs := execute(size, script)
+	var runE func(size int, script []string, errs []int, toCoq bool, tag string)
+	run := func(size int, script []string, toCoq bool, tag string) { runE(size, script, nil, toCoq, tag) }
+	runE = func(size int, script []string, errs []int, toCoq bool, tag string) {
+		c, got, probs := executeE(size, script, errs)
 		stream := strings.Join(script, "")
 		want := frame(stream)
 		if !sameLines(want, got) {
-			violate(classify(stream, want, got),
-				fmt.Sprintf("stream %q read as %q with buffer size %d delivered %q, the property requires %q", stream, script, size, got, want),
-				map[string]any{"size": size, "script": vlib.Qs(script)})
+			class := classify(stream, want, got)
+			if errs != nil {
+				class += "/bytes-with-error"
+			}
+			violate(class,
+				fmt.Sprintf("stream %q read as %q (errors returned with the chunks: %v) with buffer size %d delivered %q, the property requires %q", stream, script, errs, size, got, want),
+				map[string]any{"size": size, "script": vlib.Qs(script), "errs": errs})
 		}
 		for _, p := range probs {
 			class := "reader-protocol"
@@ -237,7 +298,7 @@ func main() {
 				class = "reader-panic"
 			}
 			violate(class, fmt.Sprintf("stream %q as %q size %d: %s", stream, script, size, p),
-				map[string]any{"size": size, "script": vlib.Qs(script)})
+				map[string]any{"size": size, "script": vlib.Qs(script), "errs": errs})
 		}
 		if toCoq {
 			id := out.NextID()
@@ -350,6 +411,87 @@ func main() {
 	for _, rc := range randoms {
 		run(rc.size, rc.script, true, "random")
 	}
+	// ---- reads that return an error together with bytes ----
+	// (io.Reader allows (n > 0, io.EOF) and (n > 0, err); iotest.DataErrReader style)
+	// exhaustive: strings up to length 3, every chunking, the last chunk with EOF,
+	// every earlier chunk with nil / another error; sizes 1..3; then random ones.
+	sweptE := 0
+	var recE func(prefix []byte, n int)
+	recE = func(prefix []byte, n int) {
+		if len(prefix) == n {
+			st := string(prefix)
+			for mask := 0; mask < 1<<(n-1); mask++ {
+				script := chunking(st, mask)
+				for ev := 0; ev < 1<<(len(script)-1); ev++ {
+					errs := make([]int, len(script))
+					for i := range errs {
+						if i == len(errs)-1 {
+							errs[i] = 1
+						} else if ev&(1<<i) != 0 {
+							errs[i] = 2
+						}
+					}
+					for size := 1; size <= 3; size++ {
+						runE(size, script, errs, n <= 2 || rng.Intn(6) == 0, "with-error/exhaustive")
+						sweptE++
+					}
+				}
+			}
+			return
+		}
+		for _, b := range alphabet[:3] {
+			recE(append(prefix, b), n)
+		}
+	}
+	maxE := 4
+	if a.Thorough() {
+		maxE = 5
+	}
+	for n := 1; n <= maxE; n++ {
+		recE(nil, n)
+	}
+	nre := 60
+	if a.Thorough() {
+		nre = 1500
+	}
+	for i := 0; i < nre; i++ {
+		n := 1 + rng.Intn(120)
+		b := make([]byte, n)
+		for k := range b {
+			switch x := rng.Intn(100); {
+			case x < 15:
+				b[k] = '\n'
+			case x < 25:
+				b[k] = '\r'
+			default:
+				b[k] = byte(32 + rng.Intn(95))
+			}
+		}
+		maxChunk := 1 + rng.Intn(40)
+		var script []string
+		var errs []int
+		for p := 0; p < n; {
+			l := 1 + rng.Intn(maxChunk)
+			if rng.Chance(3) {
+				l = 0
+			}
+			if p+l > n {
+				l = n - p
+			}
+			script = append(script, string(b[p:p+l]))
+			p += l
+			e := 0
+			if p == n {
+				e = vlib.Pick(rng, []int{1, 1, 1, 2, 0})
+			} else if rng.Chance(15) {
+				e = 2
+			}
+			errs = append(errs, e)
+		}
+		runE(vlib.Pick(rng, []int{1, 2, 3, 7, 16, 64, 4096}), script, errs, true, "with-error/random")
+		sweptE++
+	}
+	out.Extra["reads_with_error_checked_by_oracle"] = sweptE
 	out.Extra["exhaustive_cases_checked_by_oracle"] = swept
 	out.Extra["oracle_violations_by_class"] = perClass
 	out.Extra["exhaustive_alphabet"] = "\\n \\r a 0xC3 0xA9"
@@ -365,13 +507,14 @@ func replay(path string) {
 		Case struct {
 			Size   int      `json:"size"`
 			Script []string `json:"script"`
+			Errs   []int    `json:"errs"`
 		} `json:"case"`
 	}
 	vlib.ReadJSON(path, &v)
 	script := vlib.UnQs(v.Case.Script)
-	_, got, probs := execute(v.Case.Size, script)
+	_, got, probs := executeE(v.Case.Size, script, v.Case.Errs)
 	want := frame(strings.Join(script, ""))
-	fmt.Printf("replay %s\nreads     %q\nsize      %d\ndelivered %q\nrequired  %q\n", path, script, v.Case.Size, got, want)
+	fmt.Printf("replay %s\nerrors    %v\nreads     %q\nsize      %d\ndelivered %q\nrequired  %q\n", path, v.Case.Errs, script, v.Case.Size, got, want)
 	for _, p := range probs {
 		fmt.Println("problem:", p)
 	}
